@@ -21,7 +21,7 @@ ASSUMPTIONS = [
     'farthest-point tolerance d >= dmax - (1e-9(1+dmax)+eps); if every distance < eps any interior point is admissible (library guard)',
 ]
 BOUNDS = {
-    'quick': {'A': 'n<=4 complete', 'A12 (x0=0,gaps 1-2)': 'n=5 complete', 'B,C': 'n=4', 'Y013 (unit gaps, y in 0,1,3)': 'n=7 complete'},
+    'quick': {'A12 / Y013 re-embedded (y*2^-34; x*2^-20,y*2^-27; y*2^34)': 'n=5 / n=7', 'A': 'n<=4 complete', 'A12 (x0=0,gaps 1-2)': 'n=5 complete', 'B,C': 'n=4', 'Y013 (unit gaps, y in 0,1,3)': 'n=7 complete'},
     'thorough': {'A': 'n<=5 complete', 'A12': 'n=6 complete', 'B,C': 'n=5', 'A1': 'n=7', 'Y013': 'n=8 complete'},
 }
 TECHNIQUE = 'history exploration of rdp_fixed (k = 0..n+1) on all small curves; every step checked against the reference greedy split machine'
@@ -37,6 +37,10 @@ def units(tier, seed):
         plan = [('A', 2, 1), ('A', 3, 2), ('A', 4, 8), ('A', 5, 256), ('A12', 6, 256), ('B', 5, 32), ('C', 5, 32), ('A1', 7, 32), ('Y013', 8, 32)]
     b = curves.bonus(seed, curves.A12)
     plan.append((b.name, 5, 48))
+    for p in curves.tiny_family(curves.G12Y013 if tier == 'quick' else curves.A12):
+        plan.append((p.name, 5, 32))
+    for p in curves.tiny_family(curves.Y013):
+        plan.append((p.name, 7 if tier == 'quick' else 8, 16 if tier == 'quick' else 32))
     return [('curves', prof, n, k, K) for prof, n, K in plan for k in range(K)]
 
 
